@@ -33,8 +33,9 @@ type recWriter struct {
 	log  []byte
 	mode string // ok fail short-nil short-err fail-once short-err-once
 	n    int
-	// failed counts the Write calls that returned an error
-	failed int
+	// failed counts the Write calls that returned an error, accepted the bytes those calls took all the same
+	failed   int
+	accepted int
 }
 
 var errWriter = errors.New("injected writer failure")
@@ -65,6 +66,9 @@ func (w *recWriter) Write(p []byte) (int, error) {
 	case "short-err":
 		k := len(p) / 2
 		w.append(p[:k])
+		w.mu.Lock()
+		w.accepted += k
+		w.mu.Unlock()
 		return k, errWriter
 	}
 	h := len(p) / 2
@@ -124,6 +128,7 @@ func TestC13(t *testing.T) {
 	c13Writer(run, r)
 	c13FileSink(run, r)
 	c13Channel(run, r)
+	c13ChannelQueued(run, r)
 	c13FileFaults(run, r)
 	c13PartialWrites(run, r)
 }
@@ -192,6 +197,17 @@ func c13Writer(run *rt.Run, r *rt.Rand) {
 				if c.err != nil && !c.nilEv && c.present {
 					reported++
 				}
+			}
+			// conservation: the log holds the acknowledged records and what the failed Write accepted, nothing else
+			// (bytes of a call that reported an error do not turn up later, carried by somebody else's success)
+			want := w.accepted
+			for _, c := range calls {
+				if c.err == nil && !c.nilEv && c.present {
+					want += len(c.rec)
+				}
+			}
+			if reported == w.failed && len(w.log) != want {
+				run.Violation("history-pattern:success-without-bytes", fmt.Sprintf("the writer's log holds %d bytes; the acknowledged records and the %d bytes the failed Write accepted make %d: a Process call wrote something other than exactly its own bytes", len(w.log), w.accepted, want), wit(""))
 			}
 			switch {
 			case reported < w.failed:
@@ -697,4 +713,77 @@ func c13Channel(run *rt.Run, r *rt.Rand) {
 		}
 	}
 	_ = io.EOF
+}
+
+
+// c13ChannelQueued: the bound on a Process call is its own ("the shorter of the timeout and the context"), whatever
+// other calls on the same sink are doing. Call A (live context, 1 h timeout, no room in the channel) may wait; call
+// B arrives while A waits, with a context that is already done or ends within milliseconds, and must return - it
+// does not queue behind A. Decided by the gap between "at once" and the watchdog, then A is released by a consumer.
+func c13ChannelQueued(run *rt.Run, r *rt.Rand) {
+	n := run.N(24, 600)
+	for i := 0; i < n && !run.Stop(); i++ {
+		capn := rt.Pick(r, []int{0, 1})
+		nA := r.Range(1, 3)
+		bKind := rt.Pick(r, []string{"cancelled", "deadline-near"})
+		ch := make(chan *eventlogger.Event, capn)
+		sink, err := channel.NewChannelSink(ch, time.Hour)
+		if err != nil {
+			panic(err)
+		}
+		for k := 0; k < capn; k++ {
+			ch <- &eventlogger.Event{Type: "filler"}
+		}
+		run.Progress("C13 channel queued %d cap=%d waiting=%d b=%s", i, capn, nA, bKind)
+		var awg sync.WaitGroup
+		aErr := make([]error, nA)
+		for k := 0; k < nA; k++ {
+			awg.Add(1)
+			go func(k int) {
+				defer awg.Done()
+				_, aErr[k] = sink.Process(context.Background(), &eventlogger.Event{Type: "t", Payload: fmt.Sprintf("a%d", k)})
+			}(k)
+		}
+		time.Sleep(2 * time.Millisecond) // A is (most likely) waiting in Process now; if it is not yet, B is only easier to serve
+		bctx, cancel := context.WithCancel(context.Background())
+		if bKind == "cancelled" {
+			cancel()
+		} else {
+			bctx, cancel = context.WithTimeout(context.Background(), 5*time.Millisecond)
+		}
+		bDone := make(chan error, 1)
+		go func() {
+			_, err := sink.Process(bctx, &eventlogger.Event{Type: "t", Payload: "b"})
+			bDone <- err
+		}()
+		wit := map[string]any{"sink": "ChannelSink", "capacity": capn, "timeout": "1h0m0s", "calls_waiting_with_a_live_context": nA, "context_of_the_late_call": bKind}
+		select {
+		case err := <-bDone:
+			if err == nil {
+				run.Violation("history-pattern:success-not-delivered", "ChannelSink reported success for a call whose context was done while the channel had no room and nobody was receiving", wit)
+			}
+		case <-time.After(chanWatchdog):
+			run.Violation("history-pattern:channel-blocked", fmt.Sprintf("ChannelSink.Process with a context that is %s blocked while %d other call(s) on the sink were waiting for room: the bound of a call depends on the calls before it", bKind, nA), wit)
+		}
+		cancel()
+		// release the waiting calls
+		stop := make(chan struct{})
+		go func() {
+			for {
+				select {
+				case <-ch:
+				case <-stop:
+					return
+				}
+			}
+		}()
+		awg.Wait()
+		close(stop)
+		for k, e := range aErr {
+			if e != nil {
+				run.Violation("history-pattern:spurious-error", fmt.Sprintf("waiting call a%d failed (%v) although a consumer arrived and neither its timeout nor its context ended the wait", k, e), wit)
+			}
+		}
+		run.Eval(fmt.Sprintf("queued|%d|%d|%s", capn, nA, bKind))
+	}
 }
